@@ -166,6 +166,7 @@ def model_record(rng, nid):
     m12, m21 = rng.choice([0.0, rng.uniform(0.1, 5)]), rng.uniform(0.1, 5)
     g1, g2 = gam, rng.choice([gam, 0.0, rng.uniform(-3, 3)])
     f_adm = rng.random()
+    pulse, f_pulse = rng.random() < 0.5, rng.random()
     T3 = rng.uniform(0.001, 0.006)
     depth = rng.choice([1, 2, 3])
     c = rng.choice([0.05, 1 / 3., 3.0, 7.3, 20.0, loguni(rng, 0.05, 20)])
@@ -179,6 +180,8 @@ def model_record(rng, nid):
         phi = PhiManip.phi_1D_to_2D(xx, phi)
         nu2f = lambda t: nu2b * s * math.exp(0.5 * t / (T2 * s))
         phi = Integration.two_pops(phi, xx, T2 * s, nu1=nu1 * s, nu2=nu2f, m12=m12 / s, m21=m21 / s, gamma1=g1 / s, gamma2=g2 / s, h1=h, h2=0.5, theta0=th / s)
+        if pulse:
+            phi = PhiManip.phi_2D_admix_1_into_2(phi, f_pulse, xx, xx)
         if depth == 2:
             return phi, dadi.Spectrum.from_phi(phi, ns[:2], (xx, xx))
         phi = PhiManip.phi_2D_to_3D_admix(phi, f_adm, xx, xx, xx)
